@@ -110,6 +110,8 @@ def sub_cases(draw):
         "in_prefix": draw(prefixes([1, 1, 0, 0, 6])),
         "out_prefix": draw(_level),
         "restored": net([1, 2, 3]) if draw(st.booleans()) else [],
+        "prestart": net([3, 6, 7]) if draw(st.integers(0, 2)) == 0 else [],
+        "persistence": draw(st.booleans()),
         "ext": draw(st.sampled_from(["json", "pickle"])),
         "live": net([3, 4, 5, 200]) + (["9;1;0;0;6;child of unknown node"] if draw(st.booleans()) else []),
         "sub_raises": draw(st.booleans()),
@@ -252,11 +254,18 @@ def check_subs(case, stats=None):
                 while gw0.tasks.queue:
                     gw0.tasks.transport.send(gw0.tasks.run_job())
             gw0.stop()
-        gw, rec = make_gateway(case, version, path)
+        use_persistence = bool(case["restored"]) or case.get("persistence", True)
+        gw, rec = make_gateway(case, version, path if use_persistence else None)
         rec["sub_raise"] = case["sub_raises"]
         rec["pub_raise"] = case["pub_raises"]
         try:
-            gw.start_persistence()
+            if use_persistence:
+                gw.start_persistence()
+            # traffic handled before start() (e.g. a node presentation delivered by an early recv)
+            for line in case.get("prestart", []):
+                gw.tasks.transport.recv(*_to_mqtt(case["in_prefix"], line))
+                while gw.tasks.queue:
+                    gw.tasks.transport.send(gw.tasks.run_job())
             gw.start()
         except Exception as exc:  # pylint: disable=broad-except
             raise Violation(f"start_raises.{type(exc).__name__}", case, f"start raised {exc!r}") from exc
@@ -303,7 +312,7 @@ def check_subs(case, stats=None):
     if stats is not None:
         nodes = {n for n, _ in children}
         nt = len(children) >= 2 and len(nodes) >= 2 and bool(restored_children)
-        stats.case(common.chash(case) if nt else None, case, labels=("subs", "restored" if restored_children else "fresh") + (("sub-raises",) if case["sub_raises"] else ()) + (("pub-raises",) if case["pub_raises"] else ()))
+        stats.case(common.chash(case) if nt else None, case, labels=("subs", "restored" if restored_children else "fresh") + (("prestart",) if case.get("prestart") else ()) + (("no-persistence",) if not use_persistence else ()) + (("sub-raises",) if case["sub_raises"] else ()) + (("pub-raises",) if case["pub_raises"] else ()))
 
 
 class _NoThread:
